@@ -51,6 +51,9 @@ UNITS = {
     "c05full": {"kind": "exe", "src": ["units/c05_data_movement.cpp"], "flags": ["-DVH_MASKS_FULL"]},
     "c04": {"kind": "exe", "src": ["units/c04_memory.cpp"]},
     "c19": {"kind": "exe", "src": ["units/c19_constants.cpp"]},
+    "c20": {"kind": "exe", "src": ["units/c20_geometry.cpp"]},
+    "c15": {"kind": "exe", "src": ["units/c15_cpuid_dispatch.cpp"]},
+    "c18": {"kind": "exe", "src": ["units/c18_allocator.cpp"]},
     "c02": {"kind": "exe", "src": ["units/c02_fp_basic.cpp"], "aux": {"ref": {"src": "common/ref.cpp", "flags": ["-ffp-contract=off", "-fno-builtin"]}}, "link": ["ref"]},
 }
 ALL22 = "every architecture this CPU executes: 20 x86 (sse2 ... avx512vnni<avx512vbmi2>) + emulated<128>, emulated<256>"
@@ -60,7 +63,7 @@ COMMON_ASSUME = [
     "held on the executions observed, not a proof",
 ]
 
-HOOK_COMMITS = []
+HOOK_COMMITS = ["8c68c89", "646c7e4"]  # cpuid/xgetbv source + cache bypass; gamma loop iteration counter
 NOT_APPLICABLE = {}
 
 PROPS = {
@@ -276,5 +279,74 @@ PROPS = {
         "assumptions": COMMON_ASSUME + ["mask() only for batches of at most 32 lanes (width of its int result)"],
         "floor": {"quick": 10**5, "thorough": 10**5},
         "build_failure_is_violation": True,
+    },
+    "C20": {
+        "technique": "runtime monitoring: every geometry / trait / list-order relation evaluated at run time per architecture build (complete enumeration of the finite space), "
+                     "plus an executed aligned load at exactly A::alignment()",
+        "level_text": "The space is finite and is enumerated completely in every run: for each of the 22 architectures, 21 element-type spellings, the complex types, every lane "
+                      "count 1..128 of make_sized_batch for six element types and every ordered pair of the three architecture lists, the relation is evaluated at run time so a "
+                      "violation is a monitored event with a witness rather than a broken build. Aligned loads/stores are executed at an odd multiple of A::alignment().",
+        "level_note": "Only architectures this build can instantiate contribute geometry; the list-order relations cover all_architectures as declared for x86 (the ARM/RISC-V/"
+                      "WASM members are compiled out of the list on this platform).",
+        "design_ref": "DESIGN.md section 6 C20",
+        "jobs": [
+            {"unit": "c20"},
+            {"unit": "c20", "variant": "native", "tiers": ["thorough"]},
+            {"unit": "c20", "variant": "clang", "tiers": ["thorough"]},
+        ],
+        "rule": "each evaluation = one relation instance (relation, architecture, type / lane count / list pair); all instances are enumerated, so every one is distinct and "
+                "non-trivial by construction (distinct cells are counted by hashing (relation, subject)); " + ALL22,
+        "assumptions": COMMON_ASSUME,
+        "floor": {"quick": 20000, "thorough": 20000},
+        "exhaustive": {"quick": True, "thorough": True},
+    },
+    "C15": {
+        "technique": "runtime monitoring through the XSIMD_VERIF cpuid/xgetbv injection hook: exhaustive enumeration of feature bits x OS states against an SDM truth table; "
+                     "recording functor for dispatch over instantiated sub-lists",
+        "level_text": "All 2^21 combinations of the feature bits the detector reads (20 real ones plus one reserved bit it must ignore) are fed through the injected CPUID source "
+                      "under each of the 5 presentable OS states (OSXSAVE clear; XCR0 = x87 / +SSE / +AVX / +AVX-512): 10.5 M detector constructions per run, each checked for all "
+                      "23 x86 architectures against a truth table written from the SDM (own feature bits and XMM/YMM/ZMM state, OSXSAVE required beyond SSE, XGETBV never executed "
+                      "with OSXSAVE clear) and for monotonicity on extension-closed CPUs. Non-presentable XCR0 values are only required not to crash. dispatch is exercised over "
+                      "the default list, every prefix, suffix, singleton, adjacent pair and 32 pseudo-random sub-lists with sampled availability patterns: exactly one call, first "
+                      "reported-available member, lvalue/move-only/const-ref arguments forwarded, result returned. The detector space is enumerated completely (fault_enumeration).",
+        "level_note": "Trusts the truth table (SDM vol.1 13.3, vol.2 CPUID; AMD APM for FMA4) and the hook's faithfulness: with the guard off the real instructions are used; the real "
+                      "detection on this machine is compared with /proc/cpuinfo. dispatch sub-lists are template instantiations fixed at build time.",
+        "design_ref": "DESIGN.md section 6 C15, section 11",
+        "level": "fault_enumeration",
+        "jobs": [
+            {"unit": "c15", "archs": ["avx512vnni_vbmi2", "sse2"]},
+            {"unit": "c15", "variant": "clang", "archs": ["avx512vnni_vbmi2"], "tiers": ["thorough"]},
+            {"unit": "c15", "variant": "ndebug", "archs": ["avx2"], "tiers": ["thorough"]},
+        ],
+        "rule": "each evaluation = one (architecture, CPUID/XCR0 configuration) pair checked against the truth table, one configuration checked for monotonicity, or one dispatch "
+                "call checked for exactly-once/first-available/forwarding; configurations: all 2^21 feature-bit sets x 5 presentable OS states (complete), 1/37 of them x 4 "
+                "non-presentable states; dispatch: 2 + 23*3 + 22 + 32 lists x sampled configurations; distinct cell = (OS state, feature bits >> 3) / (list, feature bits & 1023)",
+        "assumptions": COMMON_ASSUME + ["hardware presents only XCR0 values with bit2 => bit1 and bits 7:5 all-or-none (as the property states)",
+                                         "dispatch is only exercised when at least one list member is available"],
+        "floor": {"quick": 10**8, "thorough": 10**8},
+        "exhaustive": {"quick": True, "thorough": True},
+    },
+    "C18": {
+        "technique": "runtime monitoring of allocate/deallocate histories with a shadow map (alignment, no overlap, content intact, freed once), overflow requests must throw; "
+                     "thorough adds ASan+LSan and valgrind memcheck as heap-integrity monitors; brute-force oracle for get_alignment_offset / is_aligned",
+        "level_text": "Seeded histories (up to 512 live blocks, random interleaving, n in {0..64, 2^k+-1, page multiples, 0..700}) over 10 (T, Align) instantiations: every "
+                      "returned pointer must be a multiple of Align, every byte written and read back at deallocation, no two live blocks overlap; every n with n*sizeof(T) not "
+                      "representable must throw std::bad_alloc; allocator equality iff equal alignment; is_aligned for all 4096 residues; get_alignment_offset against brute force "
+                      "for all offsets x sizes x block sizes. Exploration: histories are sampled.",
+        "level_note": "Heap corruption and leaks are only visible to the ASan/LSan and valgrind jobs of the thorough tier; the quick tier sees them only through content checks.",
+        "design_ref": "DESIGN.md section 6 C18",
+        "jobs": [
+            {"unit": "c18", "archs": ["sse2", "avx2", "avx512f"]},
+            {"unit": "c18", "variant": "asan", "archs": ["sse2", "avx512f"], "tiers": ["thorough"],
+             "env": {"ASAN_OPTIONS": "detect_leaks=1:allocator_may_return_null=1:max_allocation_size_mb=4096", "UBSAN_OPTIONS": "print_stacktrace=0"}},
+            {"unit": "c18", "variant": "asan-clang", "archs": ["avx2"], "tiers": ["thorough"],
+             "env": {"ASAN_OPTIONS": "detect_leaks=1:allocator_may_return_null=1:max_allocation_size_mb=4096", "UBSAN_OPTIONS": "print_stacktrace=0"}},
+            {"unit": "c18", "tiers": ["thorough"], "wrap": ["valgrind", "-q", "--leak-check=full", "--errors-for-leak-kinds=definite", "--error-exitcode=0"], "tag": "valgrind",
+             "archs": ["sse2", "avx2"], "args": ["--scale", "0.2"]},
+        ],
+        "rule": "each evaluation = one allocate or deallocate event checked by the shadow-map monitor, one overflow request, or one predicate instance compared with brute force; "
+                "distinct cell = (T, Align, request size class) / residue / (offset, size); run for the sse2, avx2 and avx512f builds (different default_arch / alignment)",
+        "assumptions": ["power-of-two alignments >= sizeof(void*) (asserted by the library)", "held on the histories observed, not a proof"],
+        "floor": {"quick": 10**5, "thorough": 10**6},
     },
 }
